@@ -63,7 +63,7 @@ fn main() {
         let choices: Vec<u32> = serde_json::from_value(c["choices"].clone()).unwrap_or_else(|e| machinery_error(&ctx.id, &format!("bad choices: {e}")));
         replay_into(cfg, &ch, &choices, &mut rep).unwrap_or_else(|e| machinery_error(&ctx.id, &e));
     } else {
-        let bound = ctx.tier.pick(2, 3);
+        let bound = ctx.tier.pick(3, 4);
         let cfgs = configs(ctx.tier);
         let per_cfg_cap = Duration::from_secs(ctx.tier.pick(50, 800) / cfgs.len() as u64);
         for cfg in &cfgs {
@@ -78,7 +78,7 @@ fn main() {
         &ctx,
         rep,
         Spec {
-            rule: "E3 envdfs on the real Syncer+InMemoryStore+mocked P2p (paused clock): all environment choice sequences with <= 2 (quick) / <= 3 (thorough) non-default choices, default = honest full answer to the oldest request / reconnect / run init timers / stop when idle; menu per step = {answer: honest, all-but-last prefix, first only, header-ex error} x {header-sub next head, skip one} x {prune any stored height older than the sampling window} x {disconnect, reconnect} x {61 s pass}; configs: old6-batch4 (heights 1..6 old, head 16, batch 4) [+ old9-batch3, old6-batch4-prefilled-5-8 at bound-1 in thorough]; horizon 40 default-only events after the last deviation, 60 events absolute; an evaluation = one complete execution, a transition = one environment event followed by the oracles; states = distinct property-level observation traces",
+            rule: "E3 envdfs on the real Syncer+InMemoryStore+mocked P2p (paused clock): all environment choice sequences with <= 3 (quick) / <= 4 (thorough) non-default choices, default = honest full answer to the oldest request / reconnect / run init timers / stop when idle; menu per step = {answer: honest, all-but-last prefix, first only, header-ex error} x {header-sub next head, skip one} x {prune any stored height older than the sampling window} x {disconnect, reconnect} x {61 s pass}; configs: old6-batch4 (heights 1..6 old, head 16, batch 4) [+ old9-batch3, old6-batch4-prefilled-5-8 at bound-1 in thorough]; horizon 40 default-only events after the last deviation, 60 events absolute; an evaluation = one complete execution, a transition = one environment event followed by the oracles; states = distinct property-level observation traces",
             assumptions: &[
                 "Time::now() is not seamed: header times are >= 2 h away from the sampling-window edge, so wall-clock progress during the run cannot change a verdict; the exact boundary instant is not checked",
                 "the mock sits behind the header-ex client: answers are contiguous runs of individually valid headers starting at the requested height",
